@@ -112,3 +112,16 @@ def find_function_contract(name):
         if ct.func == name:
             return ct
     return None
+
+
+def apply_bounded_registry():
+    """rt/bounded_registry.py (pure data: contract id -> generator/adapter descriptors) supplies the concrete bounded search of
+    contracts whose declaration does not carry one; it affects only the labelled bounded cross-check, never an obligation."""
+    try:
+        from rt.bounded_registry import BOUNDED
+    except ImportError:
+        return
+    for cid, desc in BOUNDED.items():
+        ct = CONTRACTS.get(cid)
+        if ct is not None and not ct.bounded:
+            ct.bounded = dict(desc)
